@@ -8,6 +8,7 @@ package c04
 import (
 	"context"
 	"fmt"
+	nethttp "net/http"
 	"regexp"
 	"sort"
 	"strconv"
@@ -15,6 +16,7 @@ import (
 	"sync"
 	"time"
 
+	"github.com/valyala/fasthttp"
 	"mosn.io/api"
 	"mosn.io/mosn/pkg/cel"
 	"mosn.io/mosn/pkg/cel/attribute"
@@ -22,9 +24,12 @@ import (
 	v2 "mosn.io/mosn/pkg/config/v2"
 	mlog "mosn.io/mosn/pkg/log"
 	"mosn.io/mosn/pkg/protocol"
+	mhttp2 "mosn.io/mosn/pkg/protocol/http2"
+	"mosn.io/mosn/pkg/protocol/xprotocol/bolt"
 	"mosn.io/mosn/pkg/router"
 	"mosn.io/mosn/pkg/types"
 	plog "mosn.io/pkg/log"
+	phttp "mosn.io/pkg/protocol/http"
 	"mosn.io/pkg/variable"
 	"verif/harness/hx"
 )
@@ -48,9 +53,83 @@ type vhost struct {
 	domains []string
 	rules   []rule
 }
+type kv struct{ k, v string }
+
+// request: the variable context plus the header map. kind selects the api.HeaderMap implementation that carries the
+// headers: 'c' protocol.CommonHeader, 'b' a bolt request frame (header.BytesHeader, the xprotocol map); both compare names exactly,
+// 'h' the HTTP/1 map over fasthttp, '2' the HTTP/2 request map (both compare names ignoring case; a name may repeat).
 type request struct {
-	vars map[string]*string // nil pointer = variable left unset
-	hdrs map[string]string
+	vars   map[string]*string // nil pointer = variable left unset
+	kind   byte
+	hdrs   []kv      // in the order they are added to the map
+	pseudo [3]string // HTTP/2 request line: authority, path, method
+}
+
+func newReq(kind byte) request {
+	return request{vars: map[string]*string{}, kind: kind}
+}
+
+// add: a header as the protocol's decoder would store it (the exact maps hold one value per name)
+func (rq *request) add(k, v string) {
+	if rq.kind == 0 {
+		rq.kind = 'c'
+	}
+	if rq.kind == 'c' || rq.kind == 'b' {
+		for i := range rq.hdrs {
+			if rq.hdrs[i].k == k {
+				rq.hdrs[i].v = v
+				return
+			}
+		}
+	}
+	if rq.kind == 'h' && v == "" {
+		// fasthttp keeps an empty value that is appended into a recycled slot as nil and then reports the header as
+		// absent (the quirk mosn.io/pkg's RequestHeader.Set works around with a placeholder): a repeated name carries a
+		// non-empty value here, the first occurrence is stored with that Set (see mkHeaders)
+		for _, e := range rq.hdrs {
+			if strings.EqualFold(e.k, k) {
+				v = "-"
+			}
+		}
+	}
+	rq.hdrs = append(rq.hdrs, kv{k, v})
+}
+
+var pseudoNames = [3]string{":authority", ":path", ":method"}
+
+// mkHeaders builds the real header map of the request's kind
+func mkHeaders(rq request) api.HeaderMap {
+	switch rq.kind {
+	case 'b':
+		h := &bolt.Request{} // what the bolt decoder hands to the router: header.BytesHeader inside the request frame
+		for _, e := range rq.hdrs {
+			h.Set(e.k, e.v)
+		}
+		return h
+	case 'h':
+		h := phttp.RequestHeader{RequestHeader: &fasthttp.RequestHeader{}}
+		seen := map[string]bool{}
+		for _, e := range rq.hdrs {
+			if f := strings.ToLower(e.k); !seen[f] {
+				seen[f] = true
+				h.Set(e.k, e.v) // keeps an empty value observable
+			} else {
+				h.Add(e.k, e.v) // a repeated header line is appended
+			}
+		}
+		return h
+	case '2':
+		hd := nethttp.Header{}
+		for _, e := range rq.hdrs {
+			hd.Add(e.k, e.v) // canonical key, values in arrival order (what the HTTP/2 server does)
+		}
+		return mhttp2.NewReqHeader(&nethttp.Request{Header: hd, Host: rq.pseudo[0], RequestURI: rq.pseudo[1], Method: rq.pseudo[2]})
+	}
+	h := protocol.CommonHeader{}
+	for _, e := range rq.hdrs {
+		h[e.k] = e.v
+	}
+	return h
 }
 
 const unset = "!"
@@ -106,10 +185,7 @@ func dslEval(e string, rq request) string {
 	out := "e"
 	hx.Safe(func() {
 		ctx := mkCtx(rq)
-		hd := protocol.CommonHeader{}
-		for k, v := range rq.hdrs {
-			hd[k] = v
-		}
+		hd := mkHeaders(rq)
 		bag := attribute.NewMutableBag(extract.ExtractAttributes(ctx, hd, nil, nil, nil, nil, time.Now()))
 		bag.Set(extract.KContext, ctx)
 		res, err := ex.Evaluate(bag)
@@ -203,7 +279,11 @@ func sortedKeys[V any](m map[string]V) []string {
 
 func encodeReq(rq request, t *rxTab) string {
 	var p []string
-	p = append(p, "req", strconv.Itoa(len(rq.vars)))
+	kind := rq.kind
+	if kind == 0 {
+		kind = 'c'
+	}
+	p = append(p, "req", string(kind), strconv.Itoa(len(rq.vars)))
 	inputs := map[string]bool{"": true}
 	for _, k := range sortedKeys(rq.vars) {
 		v := rq.vars[k]
@@ -215,9 +295,18 @@ func encodeReq(rq request, t *rxTab) string {
 		}
 	}
 	p = append(p, strconv.Itoa(len(rq.hdrs)))
-	for _, k := range sortedKeys(rq.hdrs) {
-		p = append(p, tok(k), tok(rq.hdrs[k]))
-		inputs[rq.hdrs[k]] = true
+	for _, e := range rq.hdrs {
+		p = append(p, tok(e.k), tok(e.v))
+		inputs[e.v] = true
+	}
+	if kind == '2' {
+		p = append(p, "ps", "3")
+		for i, n := range pseudoNames {
+			p = append(p, tok(n), tok(rq.pseudo[i]))
+			inputs[rq.pseudo[i]] = true
+		}
+	} else {
+		p = append(p, "ps", "0")
 	}
 	// the regex truth table: Go regexp on exactly the (pattern, input) pairs this case can ask for
 	var rows []string
@@ -349,10 +438,7 @@ func observe(b built, rq request) string {
 	}
 	var out string
 	msg, bad := hx.Safe(func() {
-		hd := protocol.CommonHeader{}
-		for k, v := range rq.hdrs {
-			hd[k] = v
-		}
+		hd := mkHeaders(rq)
 		ctx := mkCtx(rq)
 		vh := "-1"
 		if r := b.twin.MatchRoute(ctx, hd); r != nil {
@@ -383,10 +469,7 @@ func observe(b built, rq request) string {
 						}
 					}()
 					cx := mkCtx(rq)
-					h2 := protocol.CommonHeader{}
-					for k, v := range rq.hdrs {
-						h2[k] = v
-					}
+					h2 := mkHeaders(rq) // a map per goroutine: fasthttp's Peek writes a scratch buffer
 					res[i] = routeName(cx, b.full.MatchRoute(cx, h2))
 				}(i)
 			}
@@ -425,6 +508,11 @@ func emit(c *hx.Ctx, kind string, vhs []vhost, b built, rq request) {
 			c.Count("result=several-rules-match")
 		}
 	}
+	k := rq.kind
+	if k == 0 {
+		k = 'c'
+	}
+	c.Count("map=" + map[byte]string{'c': "CommonHeader", 'b': "BytesHeader", 'h': "http1", '2': "http2"}[k])
 }
 
 // ---------------------------------------------------------------- generators
@@ -485,21 +573,40 @@ var paths = []string{"/a", "/a/b", "/A/B", "/", "/b"}
 var pathRegexes = []string{"^/a.*", "/b$", "^/[ab]+/c$", ".*", "^$", "b"}
 var hdrRegexes = []string{"^v[12]$", "v.*", "^$", ".*"}
 
+// configured header names: lower case, mixed case, all upper case, the RPC key in both cases, a pseudo header
+var cfgHdrNames = []string{"k1", "k1", "k2", "K1", "Service-Name", "Service-Name", "service-name", "SERVICE-NAME", "X-Tag", ":authority"}
+
+// caseVariants: the spellings under which a request may carry a configured name
+func caseVariants(n string) []string {
+	out := []string{n}
+	for _, v := range []string{strings.ToLower(n), strings.ToUpper(n), strings.Title(strings.ToLower(n))} {
+		dup := false
+		for _, o := range out {
+			dup = dup || o == v
+		}
+		if !dup {
+			out = append(out, v)
+		}
+	}
+	return out
+}
+
 func genHdrs(r *hx.Rng, http bool) []hdrM {
 	var hs []hdrM
 	n := r.Pick([]int{0, 0, 0, 1, 1, 2, 3})
 	for i := 0; i < n; i++ {
 		switch k := r.Intn(100); {
 		case k < 35:
-			hs = append(hs, hdrM{r.PickS([]string{"k1", "k2"}), r.PickS([]string{"v1", "v2", ""}), false})
+			hs = append(hs, hdrM{r.PickS(cfgHdrNames), r.PickS([]string{"v1", "v2", ""}), false})
 		case k < 55:
-			hs = append(hs, hdrM{r.PickS([]string{"k1", "k2", "service"}), r.PickS(hdrRegexes), true})
+			hs = append(hs, hdrM{r.PickS(append([]string{"service", "Service"}, cfgHdrNames...)), r.PickS(hdrRegexes), true})
 		case k < 60:
 			hs = append(hs, hdrM{"k1", "v(", true}) // does not compile: MOSN ignores the matcher
 		case k < 80:
-			hs = append(hs, hdrM{"method", r.PickS([]string{"GET", "POST"}), r.Chance(20)})
+			// `Method` is not the method matcher: it is an ordinary header matcher on a header of that name
+			hs = append(hs, hdrM{r.PickS([]string{"method", "method", "method", "Method"}), r.PickS([]string{"GET", "POST"}), r.Chance(20)})
 		default:
-			hs = append(hs, hdrM{"service", r.PickS([]string{"s1", "s2", ".*", ""}), false})
+			hs = append(hs, hdrM{r.PickS([]string{"service", "service", "Service"}), r.PickS([]string{"s1", "s2", ".*", ""}), false})
 		}
 	}
 	return hs
@@ -585,9 +692,9 @@ func genRule(c *hx.Ctx, r *hx.Rng) rule {
 		switch r.Intn(6) {
 		case 0: // catch-all
 		case 1:
-			x.hdrs = []hdrM{{"service", r.PickS([]string{"s1", "s2", ".*", ""}), false}}
+			x.hdrs = []hdrM{{r.PickS([]string{"service", "service", "Service"}), r.PickS([]string{"s1", "s2", ".*", ""}), false}}
 		case 2:
-			x.hdrs = []hdrM{{"service", r.PickS([]string{"^s[12]$", ".*", "s.*"}), true}}
+			x.hdrs = []hdrM{{r.PickS([]string{"service", "service", "SERVICE"}), r.PickS([]string{"^s[12]$", ".*", "s.*"}), true}}
 		default:
 			x.hdrs = genHdrs(r, false)
 		}
@@ -705,8 +812,25 @@ func genHost(c *hx.Ctx, r *hx.Rng, vhs []vhost) *string {
 		":80", ":", "a.cc:", "[a.cc]:80", "[A.cc]", "x]:80", "[::1]x:80", "cc", "CC:80", "-", "a.cc:*", "b.a.cc:*", "xn--bcher-kva.cc", "a..cc"}))
 }
 
+// configuredNames: the header names the configuration's matchers use
+func configuredNames(vhs []vhost) []string {
+	seen := map[string]bool{}
+	var out []string
+	for _, vh := range vhs {
+		for _, ru := range vh.rules {
+			for _, h := range ru.hdrs {
+				if !seen[h.name] {
+					seen[h.name] = true
+					out = append(out, h.name)
+				}
+			}
+		}
+	}
+	return out
+}
+
 func genRequest(c *hx.Ctx, r *hx.Rng, vhs []vhost) request {
-	rq := request{vars: map[string]*string{}, hdrs: map[string]string{}}
+	rq := newReq("cccbbhhh22"[r.Intn(10)])
 	rq.vars[types.VarHost] = genHost(c, r, vhs)
 	switch k := r.Intn(100); {
 	case k < 5:
@@ -728,17 +852,65 @@ func genRequest(c *hx.Ctx, r *hx.Rng, vhs []vhost) request {
 	if r.Chance(40) {
 		rq.vars[types.VarScheme] = sp(r.PickS([]string{"http", "https"}))
 	}
-	for _, k := range []string{"k1", "k2"} {
-		if r.Chance(55) {
-			// now and then the text of a configured pattern itself (a regex matcher must not compare literally)
-			rq.hdrs[k] = r.PickS([]string{"v1", "v2", "", "v3", "v1", "v2", "^$", "^v[12]$"})
+	if rq.kind == '2' {
+		// the request line; mostly what the variables say, now and then a value a header matcher could ask for
+		get := func(k string, d string) string {
+			if v := rq.vars[k]; v != nil && r.Chance(70) {
+				return *v
+			}
+			return d
+		}
+		rq.pseudo = [3]string{get(types.VarHost, r.PickS([]string{"v1", "a.cc", ""})), get(types.VarPath, "/a"), get(types.VarMethod, r.PickS([]string{"GET", "v1"}))}
+	}
+	hvals := []string{"v1", "v2", "", "v3", "v1", "v2", "^$", "^v[12]$"} // now and then the text of a configured pattern itself
+	svals := []string{"s1", "s2", "", "abc", ".*"}
+	vals := func(n string) []string {
+		if strings.EqualFold(n, "service") {
+			return svals
+		}
+		if strings.EqualFold(n, "method") {
+			return []string{"GET", "POST"}
+		}
+		return hvals
+	}
+	// the names the configuration asks for, each carried under its configured spelling, another spelling, both (in
+	// either order, with different values) or not at all
+	for _, n := range configuredNames(vhs) {
+		if n == "method" && !r.Chance(15) {
+			continue // a header called method is not the request method
+		}
+		vs := caseVariants(n)
+		other := vs[r.Intn(len(vs))]
+		switch k := r.Intn(100); {
+		case k < 30:
+			rq.add(n, r.PickS(vals(n)))
+			c.Count("reqhdr=configured-spelling")
+		case k < 50:
+			rq.add(other, r.PickS(vals(n)))
+			if other != n {
+				c.Count("reqhdr=other-spelling")
+			} else {
+				c.Count("reqhdr=configured-spelling")
+			}
+		case k < 60:
+			rq.add(n, r.PickS(vals(n)))
+			rq.add(other, r.PickS(vals(n)))
+			c.Count("reqhdr=both-configured-first")
+		case k < 70:
+			rq.add(other, r.PickS(vals(n)))
+			rq.add(n, r.PickS(vals(n)))
+			c.Count("reqhdr=both-other-first")
+		default:
+			c.Count("reqhdr=absent")
 		}
 	}
-	if r.Chance(55) {
-		rq.hdrs["service"] = r.PickS([]string{"s1", "s2", "", "abc", ".*"})
+	for _, k := range []string{"k1", "k2"} {
+		if r.Chance(25) {
+			rq.add(k, r.PickS(hvals))
+		}
 	}
-	if r.Chance(10) {
-		rq.hdrs["method"] = "GET" // a header called method is not the request method
+	if r.Chance(30) {
+		rq.add("service", r.PickS(svals))
 	}
 	return rq
 }
@@ -856,7 +1028,7 @@ func enumerate(c *hx.Ctx, k int) {
 			}
 			b := buildReal(vhs)
 			for _, h := range hostSet {
-				rq := request{vars: map[string]*string{}, hdrs: map[string]string{}}
+				rq := newReq('c')
 				if h == unset {
 					rq.vars[types.VarHost] = nil
 				} else {
@@ -897,15 +1069,18 @@ func enumerateRules(c *hx.Ctx, k int) {
 	for _, path := range []string{"/a", "/b", unset} {
 		for _, method := range []string{"GET", "POST"} {
 			for _, k1 := range []string{"v1", unset} {
-				rq := request{vars: map[string]*string{types.VarHost: sp("x.org"), types.VarMethod: sp(method)}, hdrs: map[string]string{}}
-				if path != unset {
-					rq.vars[types.VarPath] = sp(path)
+				for _, kind := range []byte{'c', 'h'} {
+					rq := newReq(kind)
+					rq.vars[types.VarHost], rq.vars[types.VarMethod] = sp("x.org"), sp(method)
+					if path != unset {
+						rq.vars[types.VarPath] = sp(path)
+					}
+					if k1 != unset {
+						rq.add("k1", k1)
+						rq.add("service", "s1")
+					}
+					reqs = append(reqs, rq)
 				}
-				if k1 != unset {
-					rq.hdrs["k1"] = k1
-					rq.hdrs["service"] = "s1"
-				}
-				reqs = append(reqs, rq)
 			}
 		}
 	}
@@ -931,6 +1106,53 @@ func enumerateRules(c *hx.Ctx, k int) {
 		}
 	}
 	rec(nil)
+}
+
+// small-scope enumeration of header NAME handling: a rule keyed on one header (RPC rule = CreateCommonHeaderMatcher,
+// prefix rule = CreateHTTPHeaderMatcher; exact or regex value; alone or with a second matcher) followed by a catch-all,
+// x every configured spelling x every header-map kind x the request carrying the configured spelling, another
+// spelling, both (either order, different values), neither, an empty value
+func enumerateHeaderNames(c *hx.Ctx, thorough bool) {
+	names := []string{"Service-Name", "service-name", "SERVICE-NAME", "service", "Service", "X-Tag", ":authority", "method", "Method"}
+	if !thorough {
+		names = []string{"Service-Name", "service-name", "service", "Service", ":authority", "Method"}
+	}
+	type form struct {
+		tag string
+		mk  func(n string) rule
+	}
+	forms := []form{
+		{"rpc-exact", func(n string) rule { return rule{hdrs: []hdrM{{n, "v1", false}}} }},
+		{"rpc-regex", func(n string) rule { return rule{hdrs: []hdrM{{n, "^v[12]$", true}}} }},
+		{"rpc-two", func(n string) rule { return rule{hdrs: []hdrM{{"k1", "v1", false}, {n, "v1", false}}} }},
+		{"http-exact", func(n string) rule { return rule{prefix: "/", hdrs: []hdrM{{n, "v1", false}}} }},
+		{"http-regex", func(n string) rule { return rule{path: "/a", hdrs: []hdrM{{n, "^v[12]$", true}}} }},
+	}
+	for _, n := range names {
+		for _, f := range forms {
+			vhs := []vhost{{domains: []string{"*"}, rules: []rule{f.mk(n), {}}}}
+			b := buildReal(vhs)
+			c.Count("enum.hdrname=" + f.tag)
+			for _, kind := range []byte{'c', 'b', 'h', '2'} {
+				var sets [][]kv
+				vs := caseVariants(n)
+				sets = append(sets, nil, []kv{{n, "v1"}}, []kv{{n, ""}}, []kv{{n, "v3"}})
+				for _, o := range vs[1:] {
+					sets = append(sets, []kv{{o, "v1"}}, []kv{{o, "v1"}, {n, "v3"}}, []kv{{n, "v3"}, {o, "v1"}}, []kv{{n, "v1"}, {o, "v3"}})
+				}
+				for _, set := range sets {
+					rq := newReq(kind)
+					rq.vars[types.VarHost], rq.vars[types.VarPath], rq.vars[types.VarMethod] = sp("x.org"), sp("/a"), sp("v1")
+					rq.pseudo = [3]string{"v1", "/a", "v1"}
+					rq.add("k1", "v1")
+					for _, e := range set {
+						rq.add(e.k, e.v)
+					}
+					emit(c, "eh", vhs, b, rq)
+				}
+			}
+		}
+	}
 }
 
 // exhaustive host:port grammar: every string of <= n characters over a 7-letter alphabet as the request host against
@@ -961,7 +1183,8 @@ func enumerateGrammar(c *hx.Ctx, n, m int) {
 	}
 	b := buildReal(fixed)
 	for _, w := range words(n) {
-		rq := request{vars: map[string]*string{types.VarHost: sp(w)}, hdrs: map[string]string{}}
+		rq := newReq('c')
+		rq.vars[types.VarHost] = sp(w)
 		emit(c, "gh", fixed, b, rq)
 	}
 	c.Count("grammar.hosts")
@@ -974,7 +1197,8 @@ func enumerateGrammar(c *hx.Ctx, n, m int) {
 			ps = probes[:1]
 		}
 		for _, pr := range append([]string{w}, ps...) {
-			rq := request{vars: map[string]*string{types.VarHost: sp(pr)}, hdrs: map[string]string{}}
+			rq := newReq('c')
+			rq.vars[types.VarHost] = sp(pr)
 			emit(c, "gd", vhs, bb, rq)
 		}
 	}
@@ -995,10 +1219,12 @@ func Run(c *hx.Ctx) {
 		enumerate(c, 2)
 		enumerateRules(c, 2)
 		enumerateGrammar(c, 3, 2)
+		enumerateHeaderNames(c, false)
 	} else if c.Seed%1000 == 0 {
 		enumerate(c, 4)
 		enumerateRules(c, 3)
 		enumerateGrammar(c, 5, 4)
+		enumerateHeaderNames(c, true)
 	}
 	nCfg := c.N(450, 12000)
 	for i := 0; i < nCfg; i++ {
@@ -1043,7 +1269,7 @@ func Run(c *hx.Ctx) {
 		}
 		b := buildReal(vhs)
 		for j := 0; j < 10; j++ {
-			rq := request{vars: map[string]*string{}, hdrs: map[string]string{}}
+			rq := newReq('c')
 			rq.vars[types.VarHost] = sp(r.PickS([]string{"x.", "x", "x-", ""}) + genName(r, 1, 5))
 			emit(c, "ch", vhs, b, rq)
 		}
